@@ -177,7 +177,7 @@ func formatSliceExpr(ctx *formatCtx, v *ast.SliceExpr) {
 
 func formatCallExpr(ctx *formatCtx, v *ast.CallExpr) {
 	formatExpr(ctx, v.Fun, &v.Fun)
-	fncallStartingLowerCase(v)
+	fncallStartingLowerCase(ctx, v)
 	for i, arg := range v.Args {
 		if fn, ok := arg.(*ast.FuncLit); ok {
 			funcLitToLambdaExpr(fn, &v.Args[i])
